@@ -7,7 +7,11 @@
 //	livereal the real aligned timeTicker.Start against the wall clock (only wall-clock independent facts printed)
 //	sched    a real batch task on a real TaskMaster: ExecutingTask.BatchQueries for a span (historical list),
 //	         then StartBatching with a fake InfluxDB client and injected tick times (live list), then
-//	         BatchQueries again (state left behind by the live ticks)
+//	         BatchQueries again (state left behind by the live ticks); `tz=` runs the op with time.Local set to a
+//	         fixed zone (cron expressions are evaluated in the host's zone), `cz=` is a cron naming hours/minutes
+//	cronlive real batch tasks with the REAL cronTicker.Start against the wall clock for one second, in a fixed
+//	         non-UTC zone, with cron expressions derived from the current time (so a tick is due within the
+//	         second); afterwards BatchQueries for the same span: the historical list must be the live list
 package c16
 
 import (
@@ -749,6 +753,37 @@ func errKind(err error) string {
 	return "err:other"
 }
 
+// setZone makes `tz` seconds east of UTC the host's zone (time.Local) until the returned function is called.
+// Every time.Now() / Time.Local() / time.Unix() of the code under test reads the variable at call time.
+// tz = 0 pins UTC, so that no op depends on the zone of the machine the check runs on.
+func setZone(tz int64) func() {
+	old := time.Local
+	if tz == 0 {
+		time.Local = time.UTC
+	} else {
+		time.Local = time.FixedZone(fmt.Sprintf("V%+d", tz), int(tz))
+	}
+	return func() { time.Local = old }
+}
+
+// czExpr: `cz=<hours>;<minutes>;<seconds>` (each a `+` separated list) as the cron expression
+// `<seconds> <minutes> <hours> * * * *`.
+func czExpr(cz string) (string, bool) {
+	p := strings.Split(cz, ";")
+	if len(p) != 3 {
+		return "", false
+	}
+	for _, f := range p {
+		for _, x := range strings.Split(f, "+") {
+			if _, err := strconv.Atoi(x); err != nil {
+				return "", false
+			}
+		}
+	}
+	c := func(f string) string { return strings.ReplaceAll(f, "+", ",") }
+	return fmt.Sprintf("%s %s %s * * * *", c(p[2]), c(p[1]), c(p[0])), true
+}
+
 func execSched(t []string) string {
 	kv := parseKV(t[1:])
 	geti := func(k string) int64 { v, _ := strconv.ParseInt(kv[k], 10, 64); return v }
@@ -760,9 +795,16 @@ func execSched(t []string) string {
 	c.gbz = kv["gbz"] == "1"
 	if k := geti("cron"); k > 0 {
 		c.cron = cronExpr(k)
+	} else if k == -2 {
+		e, ok := czExpr(kv["cz"]) // named hours / minutes / seconds, evaluated in the host's zone
+		if !ok {
+			return "badop"
+		}
+		c.cron = e
 	} else if k < 0 {
 		c.cron = "0 0 0 1 * * 2001" // the first of every month of 2001, then never again
 	}
+	defer setZone(geti("tz"))()
 	if kv["stop"] == "z" {
 		c.stopZero = true
 	} else {
@@ -957,6 +999,214 @@ func sortedKeys(m map[string]bool) []string {
 }
 
 // ---------------------------------------------------------------------------------------------
+// op: cronlive — the real cronTicker.Start in a fixed zone, against the wall clock, for one second
+//
+//	cronlive tz=<seconds east> shapes=<s,s,…> per=<ns> from=<ns> to=<ns>
+//
+// Every shape is one query node of one real batch task whose cron expression is derived from the clock reading
+// at the start of the op (so nothing waits for an hour to turn):
+//
+//	es  every second                          s2  every even second
+//	lh  the hour the zone's clock shows       uh  the hour the UTC clock shows
+//	lhm minute and hour of the zone's clock   uhm minute and hour of the UTC clock
+//	ld  day and month of the zone's calendar  ud  day and month of the UTC calendar
+//	lw  weekday of the zone's calendar        uw  weekday of the UTC calendar
+//
+// The op picks a whole second `base`, starts batching at base+from (exactly; it sleeps until then), lets the real
+// tickers run until base+to, stops the task and then asks BatchQueries for the span (base+from, base+to].
+// All times are printed relative to `base`. F<i> = the seconds base+1 … base+3 at which shape i is due, worked
+// out from the civil fields of those instants with the standard library (not with cronexpr).
+
+type cronShape struct {
+	expr string
+	due  func(t time.Time) bool // t: an instant; civil fields are taken in the zone the shape speaks of
+}
+
+func mkCronShape(name string, t0 time.Time, zone *time.Location) (cronShape, bool) {
+	loc := zone
+	if strings.HasPrefix(name, "u") {
+		loc = time.UTC
+	}
+	// the fields are NAMED from the clock `loc`, and cron() evaluates them in the host's zone
+	n := t0.In(loc)
+	switch name {
+	case "es":
+		return cronShape{"* * * * * * *", func(t time.Time) bool { return true }}, true
+	case "end":
+		// a schedule that has ended (year field): never due again
+		return cronShape{"* * * * * * 2001", func(t time.Time) bool { return false }}, true
+	case "s2":
+		return cronShape{"*/2 * * * * * *", func(t time.Time) bool { return t.In(zone).Second()%2 == 0 }}, true
+	case "lh", "uh":
+		h := n.Hour()
+		return cronShape{fmt.Sprintf("* * %d * * * *", h), func(t time.Time) bool { return t.In(zone).Hour() == h }}, true
+	case "lhm", "uhm":
+		h, m := n.Hour(), n.Minute()
+		return cronShape{fmt.Sprintf("* %d %d * * * *", m, h), func(t time.Time) bool {
+			x := t.In(zone)
+			return x.Hour() == h && x.Minute() == m
+		}}, true
+	case "ld", "ud":
+		d, mo := n.Day(), n.Month()
+		return cronShape{fmt.Sprintf("* * * %d %d * *", d, int(mo)), func(t time.Time) bool {
+			x := t.In(zone)
+			return x.Day() == d && x.Month() == mo
+		}}, true
+	case "lw", "uw":
+		w := n.Weekday()
+		return cronShape{fmt.Sprintf("* * * * * %d *", int(w)), func(t time.Time) bool { return t.In(zone).Weekday() == w }}, true
+	}
+	return cronShape{}, false
+}
+
+func execCronLive(t []string) string {
+	kv := parseKV(t[1:])
+	geti := func(k string) int64 { v, _ := strconv.ParseInt(kv[k], 10, 64); return v }
+	tz, per, from, to := geti("tz"), geti("per"), geti("from"), geti("to")
+	names := strings.Split(kv["shapes"], ",")
+	if kv["shapes"] == "" || len(names) > 10 || per <= 0 || from < 50*int64(time.Millisecond) || to <= from || to > 3500*int64(time.Millisecond) {
+		return "badop"
+	}
+	defer setZone(tz)()
+	zone := time.Local
+	defer func() { timeBase = 0 }()
+	tm, fc := backbone()
+	var last string
+	for attempt := 0; attempt < 3; attempt++ {
+		out, ideal := guardCronLive(tm, fc, zone, names, per, from, to)
+		last = out
+		if ideal {
+			break
+		}
+	}
+	return last
+}
+
+func guardCronLive(tm *kit.TM, fc *fakeClient, zone *time.Location, names []string, per, from, to int64) (out string, ideal bool) {
+	defer func() {
+		if r := recover(); r != nil {
+			out, ideal = "panic", true
+		}
+	}()
+	// the whole second the op's times are relative to: base+from is at least 40 ms ahead
+	now := time.Now()
+	base := now.Truncate(time.Second)
+	if now.Sub(base) > time.Duration(from)-40*time.Millisecond {
+		base = base.Add(time.Second)
+	}
+	t0, t1 := base.Add(time.Duration(from)), base.Add(time.Duration(to))
+	timeBase = base.UnixNano()
+	var shapes []cronShape
+	var b strings.Builder
+	for i, nm := range names {
+		sh, ok := mkCronShape(nm, t0, zone)
+		if !ok {
+			return "badop", true
+		}
+		shapes = append(shapes, sh)
+		fmt.Fprintf(&b, "var q%d = batch\n\t|query('SELECT mean(\"v\") FROM \"db\".\"rp\".\"c%d\"')\n\t\t.period(%s)\n\t\t.cron('%s')\n", i, i, durLit(per), sh.expr)
+	}
+	taskNo++
+	id := fmt.Sprintf("c16t%d", taskNo)
+	task, err := tm.TM.NewTask(id, b.String(), kapacitor.BatchTask, []kapacitor.DBRP{{Database: "db", RetentionPolicy: "rp"}}, 0, nil)
+	if err != nil {
+		if os.Getenv("VERIF_LOG") != "" {
+			fmt.Fprintln(os.Stderr, b.String(), err)
+		}
+		return "st=err:script", true
+	}
+	fc.take()
+	fc.mu.Lock()
+	fc.noPoint = true
+	fc.mu.Unlock()
+	et, err := tm.TM.StartTask(task)
+	if err != nil {
+		return "st=" + errKind(err), true
+	}
+	stopped := false
+	defer func() {
+		if !stopped {
+			tm.TM.StopTask(id)
+		}
+	}()
+	time.Sleep(time.Until(t0))
+	if err := et.StartBatching(); err != nil { // the real tickers start here, after base+from
+		return "st=ok l=" + errKind(err), true
+	}
+	late := time.Since(t0)
+	time.Sleep(time.Until(t1))
+	cmds := fc.take() // what the live ticks issued until base+to
+	tm.TM.StopTask(id)
+	stopped = true
+	fc.take()
+	// the historical list of the same span, asked when the span is over (BatchQueries lists nothing after `now`)
+	bq, err := et.BatchQueries(t0, t1)
+	if err != nil {
+		return "st=ok l=ok h=" + errKind(err), true
+	}
+	node := func(text string) int {
+		st, err := influxql.ParseStatement(text)
+		if err != nil {
+			return -1
+		}
+		sel, ok := st.(*influxql.SelectStatement)
+		if !ok || len(sel.Sources) != 1 {
+			return -1
+		}
+		m, ok := sel.Sources[0].(*influxql.Measurement)
+		if !ok || !strings.HasPrefix(m.Name, "c") {
+			return -1
+		}
+		i, err := strconv.Atoi(m.Name[1:])
+		if err != nil || i >= len(names) {
+			return -1
+		}
+		return i
+	}
+	L := make([][]string, len(names))
+	H := make([][]string, len(names))
+	stray := 0
+	for _, c := range cmds {
+		if i := node(c); i >= 0 {
+			enc, _ := encQuery(c)
+			L[i] = append(L[i], enc)
+		} else {
+			stray++
+		}
+	}
+	for _, bb := range bq {
+		for _, q := range bb.Queries {
+			text := q.String()
+			if i := node(text); i >= 0 {
+				enc, _ := encQuery(text)
+				H[i] = append(H[i], enc)
+			} else {
+				stray++
+			}
+		}
+	}
+	out = fmt.Sprintf("st=ok l=ok h=ok stray=%d", stray)
+	ideal = late < 300*time.Millisecond
+	for i, sh := range shapes {
+		var F []string
+		due := 0
+		for k := int64(1); k <= 3; k++ {
+			if sh.due(base.Add(time.Duration(k) * time.Second)) {
+				F = append(F, strconv.FormatInt(k*int64(time.Second), 10))
+				if k*int64(time.Second) > from && k*int64(time.Second) <= to {
+					due++
+				}
+			}
+		}
+		out += fmt.Sprintf(" F%d=%s L%d=%s H%d=%s", i, list(F), i, strings.Join(orDash(L[i]), "|"), i, strings.Join(orDash(H[i]), "|"))
+		if len(L[i]) != due || strings.Join(L[i], "|") != strings.Join(H[i], "|") {
+			ideal = false
+		}
+	}
+	return out, ideal
+}
+
+// ---------------------------------------------------------------------------------------------
 
 func execLine(line string) string {
 	if i := strings.Index(line, " => "); i >= 0 {
@@ -978,6 +1228,8 @@ func execLine(line string) string {
 		obs = execLiveReal(t)
 	case "sched":
 		obs = execSched(t)
+	case "cronlive":
+		obs = execCronLive(t)
 	default:
 		obs = "badop"
 	}
